@@ -461,3 +461,43 @@ Proof.
   intros H s s' Hr. induction m as [|[x k] m IH]; [reflexivity|].
   destruct H as [Hx Hm]. cbn [eval_mono]. rewrite (Hr x Hx), (IH Hm). reflexivity.
 Qed.
+
+(* ---- the total-weight hypothesis is met by construction for the language's sugar ---- *)
+Section UnitMass.
+  Variable law : string -> list Qc -> dist Qc.
+
+  Lemma bern_unit_mass p s : mass (sample law (RDraw (DBern p)) s) = 1.
+  Proof. unfold mass. cbn [sample draw_law E]. ring. Qed.
+
+  Lemma det_unit_mass e s : mass (sample law (RDet e) s) = 1.
+  Proof. unfold mass, RDet. cbn [sample map fst snd eval E]. change (mkq 1 1) with 1. ring. Qed.
+
+  (* x = e1 {p1} ... em {pm} e  : the parser appends the probability  1-p1-...-pm *)
+  Definition implicit_last (ps : list expr) : expr := fold_left ESub ps (EConst 1).
+
+  Lemma eval_fold_sub ps : forall acc s, eval (fold_left ESub ps acc) s = eval acc s - fold_right Qcplus 0 (map (fun p => eval p s) ps).
+  Proof.
+    induction ps as [|p ps IH]; intros acc s; cbn [fold_left map fold_right].
+    - ring.
+    - rewrite IH. unfold ESub, ENeg. cbn [eval]. change (mkq (-1) 1) with (- (1)). ring.
+  Qed.
+
+  Lemma mass_choice_app alts1 alts2 s :
+    mass (sample law (RChoice (alts1 ++ alts2)) s) = mass (sample law (RChoice alts1) s) + mass (sample law (RChoice alts2) s).
+  Proof. unfold mass. cbn [sample]. rewrite map_app, E_app. reflexivity. Qed.
+
+  Lemma mass_choice_probs ps : forall es s, List.length es = List.length ps ->
+    mass (sample law (RChoice (combine ps es)) s) = fold_right Qcplus 0 (map (fun p => eval p s) ps).
+  Proof.
+    induction ps as [|p ps IH]; intros es s Hl; [reflexivity|].
+    destruct es as [|e es]; [discriminate|]. cbn [combine map fold_right].
+    unfold mass in *. cbn [sample map fst snd E]. cbn [sample] in IH. rewrite IH by (cbn in Hl; lia). ring.
+  Qed.
+
+  Theorem implicit_last_unit_mass ps es e s : List.length es = List.length ps ->
+    mass (sample law (RChoice (combine ps es ++ [(implicit_last ps, e)])) s) = 1.
+  Proof.
+    intros Hl. rewrite mass_choice_app, (mass_choice_probs ps es s Hl).
+    unfold mass. cbn [sample map fst snd E]. unfold implicit_last. rewrite eval_fold_sub. cbn [eval]. ring.
+  Qed.
+End UnitMass.
